@@ -2,6 +2,7 @@ package rules
 
 import (
 	"fmt"
+	"go/types"
 	"sort"
 
 	"fpcheck/internal/core"
@@ -365,4 +366,93 @@ func condFlag(p *core.Prog, cnd core.Cond, base, flag string, want bool, depth i
 		}
 	}
 	return false
+}
+
+// poolEscapes (use-after-release): f hands a value back to a pool (`Put`, directly or deferred) and a value derived from
+// it - the value itself, or the pointer-like result of a call that takes it (buffer.Bytes(), bytes.NewReader(…)) - is
+// returned by f although the Put is executed on the way to that return. Returns the offending Put calls.
+func poolEscapes(f *ssa.Function, isPut func(*ssa.CallCommon) bool) []ssa.Instruction {
+	var out []ssa.Instruction
+	core.Instrs(f, func(ins ssa.Instruction) {
+		ci, ok := ins.(ssa.CallInstruction)
+		if !ok || !isPut(ci.Common()) {
+			return
+		}
+		args := ci.Common().Args
+		if len(args) == 0 {
+			return
+		}
+		root := core.Unwrap(core.Resolve(args[len(args)-1]))
+		taint := map[ssa.Value]bool{root: true}
+		ptrLike := func(t types.Type) bool {
+			switch t.Underlying().(type) {
+			case *types.Pointer, *types.Slice, *types.Map, *types.Interface, *types.Chan:
+				return true
+			}
+			return false
+		}
+		for changed := true; changed; {
+			changed = false
+			core.Instrs(f, func(i2 ssa.Instruction) {
+				v, isV := i2.(ssa.Value)
+				if !isV || taint[v] {
+					return
+				}
+				t := false
+				switch x := i2.(type) {
+				case *ssa.Call:
+					if !ptrLike(x.Type()) || isPut(&x.Call) {
+						return
+					}
+					if x.Call.IsInvoke() && taint[core.Unwrap(core.Resolve(x.Call.Value))] {
+						t = true
+					}
+					for _, a := range x.Call.Args {
+						if taint[core.Unwrap(core.Resolve(a))] {
+							t = true
+						}
+					}
+				case *ssa.Slice:
+					t = taint[core.Unwrap(core.Resolve(x.X))]
+				case *ssa.ChangeType:
+					t = taint[core.Unwrap(core.Resolve(x.X))]
+				case *ssa.MakeInterface:
+					t = taint[core.Unwrap(core.Resolve(x.X))]
+				case *ssa.ChangeInterface:
+					t = taint[core.Unwrap(core.Resolve(x.X))]
+				case *ssa.TypeAssert:
+					t = taint[core.Unwrap(core.Resolve(x.X))]
+				case *ssa.Phi:
+					for _, e := range x.Edges {
+						if taint[core.Unwrap(core.Resolve(e))] {
+							t = true
+						}
+					}
+				case *ssa.Extract:
+					t = taint[x.Tuple]
+				}
+				if t {
+					taint[v] = true
+					changed = true
+				}
+			})
+		}
+		_, deferred := ins.(*ssa.Defer)
+		core.Instrs(f, func(i2 ssa.Instruction) {
+			r, isR := i2.(*ssa.Return)
+			if !isR || r.Block() == f.Recover {
+				return
+			}
+			if !deferred && !core.Reaches(ins, r) {
+				return
+			}
+			for _, v := range core.RetVals(r) {
+				if taint[core.Unwrap(core.Resolve(v))] {
+					out = append(out, ins)
+					return
+				}
+			}
+		})
+	})
+	return out
 }
